@@ -14,14 +14,14 @@ NA = {
 }
 CHECKS = {
  "C08": dict(level="exploration", ref="6/C08",
-   text="Seeded search over disk delivery schedules, operation histories on a shared lazy handle and injected storage faults; every lazy result is compared three ways (lazy, in-memory, disk image / independent sample-table expansion). Two tool worlds cover the anchors outside the library: the segmenter's functions (single, multiplexed, lazy-write) and mp4ff-crop's cropMP4 run from a lazily decoded file on a SimDisk handle and from the fully decoded file; outputs must be byte-identical and satisfy the independent conservation / prefix oracles. Sampling, not enumeration: a clean batch is evidence, not proof.",
+   text="Seeded search over disk delivery schedules, operation histories on a shared lazy handle and injected storage faults; every lazy result is compared three ways (lazy, in-memory, disk image / independent sample-table expansion); sample intervals of fragments are asked for in both modes (also on media data boxes with unused leading/trailing bytes). Two tool worlds cover the anchors outside the library: the segmenter's functions (single, multiplexed, lazy-write) and mp4ff-crop's cropMP4 run from a lazily decoded file on a SimDisk handle and from the fully decoded file; outputs must be byte-identical and satisfy the independent conservation / prefix oracles. Sampling, not enumeration: a clean batch is evidence, not proof.",
    note="Trusts the reference walker/demuxer in vsim/ref (written from ISO/IEC 14496-12, no mp4ff code) and the Go runtime; corpus files plus byte-surgery layout variants are the only file shapes; only contract-legal reader/writer behaviour is injected.",
    technique="deterministic simulation: SimDisk delivery/fault schedules + op histories vs ground-truth bytes, seeded, replayable, minimised"),
 }
 SETUP_TARGETS = "vsim race crop segmenter resegmenter combine encrypt decrypt addsidx"
 CHECKS["C02"] = dict(level="fault_enumeration", ref="6/C02",
    text="For each sampled node the write-failure points of Encode are enumerated completely (every write op k, every write boundary -1/0/+1 as device-full budget, every slice-writer shortfall d in 1..64) against the first clean encoding as model; histories of Size/Info/Encode/EncodeSW are seeded. Nodes and histories are sampled; fault points per node are enumerated.",
-   note="Objects are nodes of decoded corpus files and packager-built productions only; EncodeSW success = nil error and nil accumulated error; objects with separately written (lazy) mdat payload excluded by the library's documented design; reference size walker vsim/ref trusted.",
+   note="Objects are nodes of decoded corpus files (also after size-repaired unit transport incl. 64-bit size forms and undefined version bytes), packager-built productions and boxes built through the public constructors (esds, pssh, tenc, trun, moof, mdat, url/dref, ...); EncodeSW success = nil error and nil accumulated error; objects with separately written (lazy) mdat payload excluded by the library's documented design; reference size walker vsim/ref trusted.",
    technique="deterministic simulation: sink/slice-writer fault enumeration + seeded call histories vs first clean encoding, replayable tape")
 CHECKS["C05"] = dict(level="exploration", ref="6/C05",
    text="Seeded search over packager API histories (single/multi-track, full/metadata-only/interval additions, empty tracks, foreign boxes, optimisation, either encoder), segment fetch order/duplication and delivery schedules; read-back by GetFullSamples and by an independent demuxer must equal the producer's sample log per fragment and track.",
@@ -37,22 +37,22 @@ CHECKS["C04"] = dict(level="exploration", ref="6/C04",
    technique="deterministic simulation with storage/transport fault injection: no-panic, allocation and time budgets per step; isolated workers + watchdog")
 CHECKS["C19"] = dict(level="exploration", ref="6/C19",
    text="Seeded search over init-building call histories (1-6 tracks, all seven descriptor setters, language tags, timescales); the encoded bytes are read back by an independent walker and compared with a reference model of the track list, then sent through a simulated transport (delivery schedule, either decode path), compared deeply with the built tree, re-encoded, and used to decode a fragment built for a seeded track id.",
-   note="This property has no fault or schedule dimension; the simulator contributes the seeded history search, replay/minimisation and the transport round trip. Parameter sets are fixed public vectors; expectations for handler/media header come from ISO/IEC 14496-12/-30.",
+   note="This property has no fault or schedule dimension; the simulator contributes the seeded history search, replay/minimisation and the transport round trip. Parameter sets are fixed public vectors or SPS NAL units written by the harness (AVC and HEVC; the avcC/hvcC profile, level, chroma format and bit depth fields must repeat what the supplied SPS codes); expectations for handler/media header come from ISO/IEC 14496-12/-30.",
    technique="deterministic simulation: seeded API-history search vs reference model of the track list + transport round trip")
 CHECKS["C12"] = dict(level="exploration", ref="6/C12",
-   text="Seeded search over producer histories and delimiter modes (styp, raw sidx v0/v1 with first_offset, raw mfra + ISM flag on a seekable simulated disk incl. seek errors, none, start-on-moof), decode path/mode/delivery, and UpdateSidx/Encode histories; grouping is compared with the producer's emission log, re-encoded bytes with the emitted units, and the index with positions and durations found independently in the output bytes. A second world pushes the same emitted streams through examples/add-sidx's run() (seeded flags) and applies the fragment-bytes and index oracles to the file it writes.",
+   text="Seeded search over producer histories and delimiter modes (styp, raw sidx v0/v1 with first_offset, raw mfra + ISM flag on a seekable simulated disk incl. seek errors, none, start-on-moof), decode path/mode/delivery, foreign top-level boxes (one of them optionally in the 64-bit size form), media data boxes with unused leading/trailing bytes, and UpdateSidx/Encode histories; grouping is compared with the producer's emission log, re-encoded bytes with the emitted units, and the index with positions and durations found independently in the output bytes. A second world pushes the same emitted streams through examples/add-sidx's run() (seeded flags) and applies the fragment-bytes and index oracles to the file it writes.",
    note="Pure delimiter modes only (precedence between mixed delimiters is not defined by the statement); reference walker/demuxer vsim/ref trusted; reference_ID and earliest_presentation_time values not constrained by the statement.",
    technique="deterministic simulation: unit-stream state machine driven by a producer log + seekable SimDisk; conservation/order of moof-mdat pairs and index tiling vs independent walk")
 CHECKS["C06"] = dict(level="exploration", ref="6/C06",
-   text="Seeded search over clear single-track productions (real AVC/HEVC/AAC corpus samples and synthetic payloads at the CENC size thresholds), schemes, keys, IV sizes/values incl. counter wrap, foreign boxes in moof/traf, two encryptor flows (decoded vs freshly built objects), and player behaviour: whole stream or separately delivered init, segment order/repeats, decode path, delivery, re-encode mode; oracle = clear sample log read back by an independent demuxer, restored sample entry, multiset of non-protection boxes; third-party encrypted corpus files keep sizes and timing. Two further worlds run the inner functions of mp4ff-encrypt (encryptFile) and mp4ff-decrypt (decryptFile) between simulated input streams and sinks with read/write faults: success must satisfy the same oracles, nil after a failed read/write or an error without fault is a violation.",
+   text="Seeded search over clear single-track productions (real AVC/HEVC/AAC corpus samples and synthetic payloads at the CENC size thresholds), schemes, keys, IV sizes/values incl. counter wrap, foreign boxes in moof/traf, two encryptor flows (decoded vs freshly built objects), one refused write while inits and decrypted files are encoded, and player behaviour: whole stream or separately delivered init, segment order/repeats, decode path, delivery, re-encode mode; oracle = clear sample log read back by an independent demuxer, restored sample entry, multiset of non-protection boxes; third-party encrypted corpus files keep sizes and timing. Two further worlds run the inner functions of mp4ff-encrypt (encryptFile) and mp4ff-decrypt (decryptFile) between simulated input streams and sinks with read/write faults: success must satisfy the same oracles, nil after a failed read/write or an error without fault is a violation.",
    note="Standard-conformance of the ciphertext is C07 (not decided); single track / single trun per fragment as the API documents; reference demuxer vsim/ref trusted; box order is not demanded (multiset).",
    technique="deterministic simulation: producer -> encryptor -> origin -> player with seeded unit transport (separate init, order, repeats) and delivery; conservation vs clear sample log and box inventory")
 CHECKS["C20"] = dict(level="exploration", ref="6/C20",
-   text="Seeded search over interleavings of 2-6 caller goroutines with scripted work on their own objects derived from shared read-only inputs. Built with -race; goroutines are serialised by a baton invisible to the race detector, so each seed is one exactly replayable schedule while the detector still reports every conflicting access pair between tasks; scheduling points are step boundaries and every Read/Seek/Write a task makes on its own device handle (so tasks interleave inside library calls), some writes are refused, pooled objects are isolated per run; plus output==solo-output, shared-input hash and registry fingerprint oracles; a free-running mode at GOMAXPROCS 1/4/16 cross-checks.",
+   text="Seeded search over interleavings of 2-6 caller goroutines with scripted work on their own objects derived from shared read-only inputs. Built with -race; goroutines are serialised by a baton invisible to the race detector, so each seed is one exactly replayable schedule while the detector still reports every conflicting access pair between tasks; scheduling points are step boundaries and every Read/Seek/Write a task makes on its own device handle (so tasks interleave inside library calls), some writes are refused, pooled objects are isolated per run; steps cover decode/Info/encode/refragment/encrypt/decrypt, Annex B and parameter-set parsing, SEI messages parsed and built by hand, and brands added to the task's own decoded ftyp/styp boxes; plus output==solo-output, shared-input hash and registry fingerprint oracles; a free-running mode at GOMAXPROCS 1/4/16 cross-checks.",
    note="Trusts the Go race detector (assembly routines such as AES/XOR kernels are not instrumented: writes through them are caught by the input-hash oracle instead); registry-modifying calls excluded by the statement; one open known finding (slice-path aliasing + in-place crypto).",
    technique="deterministic simulation: tape-drawn serialised goroutine schedules (step and I/O-point granularity) under the race detector (race-invisible baton) + non-interference oracles")
 CHECKS["C10"] = dict(level="exploration", ref="6/C10",
-   text="The tool's inner function cropMP4 runs inside an in-package harness with both of its seams simulated: lazy input on a SimDisk (delivery schedules, EIO, seek errors, truncation) and a faulty output sink; inputs are corpus files, layout variants and raw-muxer files; whenever it returns nil the output is compared, by an independent demuxer, with the prefix the statement defines (exact integer arithmetic).",
+   text="The tool's inner function cropMP4 runs inside an in-package harness with both of its seams simulated: lazy input on a SimDisk (delivery schedules, EIO, seek errors, truncation) and a faulty output sink; inputs are corpus files, layout variants (mdat position/size form, extra empty mdat, free pad, moov children in another order) and raw-muxer files; whenever it returns nil the output is compared, by an independent demuxer, with the prefix the statement defines (exact integer arithmetic).",
    note="Conditional on success (errors and panics impose nothing); no claim when no sync sample starts at or after the requested duration; run()/flags/os files are real and un-faulted (one smoke run); raw muxer and reference demuxer are ours, written from ISO/IEC 14496-12.",
    technique="deterministic simulation: tool function between a simulated lazy disk and a faulty sink; prefix oracle from an independent sample-table expansion")
 CHECKS["C11"] = dict(level="exploration", ref="6/C11",
